@@ -113,6 +113,12 @@ func InteropCorpus(variant int) *ir.Request {
 		{Name: "PatchReq", Fields: []*ir.Field{{Name: "name", Number: 1, Kind: "string"}, {Name: "nums", Number: 2, Kind: "sint64", Card: "repeated"}}},
 		{Name: "PingReq", Fields: []*ir.Field{{Name: "since", Number: 1, Kind: "fixed64", Ann: q("since")}}},
 		{Name: "EchoReq", Fields: []*ir.Field{{Name: "name", Number: 1, Kind: "string"}, {Name: "title", Number: 2, Kind: "string"}}},
+		// explicit json_name on path-bound, query-bound and body fields: the TS request object carries
+		// the descriptor's JSON names, which is what every generated client and server must read
+		{Name: "AliasGetReq", Fields: []*ir.Field{{Name: "user_id", Number: 1, Kind: "string", JSONName: "uid"},
+			{Name: "page_size", Number: 2, Kind: "int32", JSONName: "ps", Ann: q("page_size")}}},
+		{Name: "AliasPutReq", Fields: []*ir.Field{{Name: "user_id", Number: 1, Kind: "string", JSONName: "uid"},
+			{Name: "display_name", Number: 2, Kind: "string", JSONName: "label"}, {Name: "big_total", Number: 3, Kind: "int64", JSONName: "total"}}},
 	}
 	shop := &ir.Service{Name: "Shop", BasePath: "/api/v1",
 		Headers: []ir.Header{{Name: "X-API-Key", Type: "string", Format: "uuid", Required: true}, {Name: "X-Tenant", Type: "string"}},
@@ -136,6 +142,7 @@ func InteropCorpus(variant int) *ir.Request {
 			{Name: "Ping", Input: P + "PingReq", Output: P + "Reply", Config: &ir.HTTPConfig{Path: "/ping", Method: "GET"},
 				Headers: []ir.Header{{Name: "X-XSRF-Token", Type: "string", Required: true}, {Name: "XSS-Mode", Type: "string", Required: true}, {Name: "X-X-Trace", Type: "string"}}},
 			{Name: "Echo", Input: P + "EchoReq", Output: P + "Reply", Config: &ir.HTTPConfig{Path: "/echo/{name}", Method: "POST"}},
+			{Name: "PutAlias", Input: P + "AliasPutReq", Output: P + "Reply", Config: &ir.HTTPConfig{Path: "/alias/{user_id}", Method: "PUT"}},
 		}}
 	f.Services = []*ir.Service{shop, aux}
 	if variant == 1 {
@@ -143,7 +150,8 @@ func InteropCorpus(variant int) *ir.Request {
 		f.Messages = append(f.Messages, &ir.Message{Name: "ListReq", Fields: []*ir.Field{
 			{Name: "item_id", Number: 1, Kind: "string"}, {Name: "page", Number: 2, Kind: "int32", Ann: q("page")}}})
 		shop.Methods = append(shop.Methods, &ir.Method{Name: "ListParts", Input: P + "ListReq", Output: P + "Reply",
-			Config: &ir.HTTPConfig{Path: "/items/{item_id}/parts", Method: "GET"}})
+			Config: &ir.HTTPConfig{Path: "/items/{item_id}/parts", Method: "GET"}},
+			&ir.Method{Name: "GetAlias", Input: P + "AliasGetReq", Output: P + "Reply", Config: &ir.HTTPConfig{Path: "/alias/{user_id}", Method: "GET"}})
 	}
 	return &ir.Request{Files: []*ir.File{f}, Generate: []string{f.Name}}
 }
